@@ -731,6 +731,61 @@ static void enter_scratch() {
   }
 }
 
+// ------------------------------------------------------------------ validation of the lock model against the kernel
+// Two REAL processes and the real fcntl(): what process B gets (F_SETLK, non-blocking) while process A holds a lock,
+// and after A closed ANOTHER descriptor of the same file, must equal what io::lock_free_for predicts.
+static int kernel_try(const char *path, int a_type, bool a_closes_other_fd, int b_type) {
+  int p2c[2], c2p[2];
+  if (pipe(p2c) || pipe(c2p)) return -1;
+  pid_t pid = fork();
+  if (pid == 0) {  // process A
+    int fd = (int)syscall(SYS_openat, AT_FDCWD, path, O_RDWR, 0);
+    struct flock fl; memset(&fl, 0, sizeof fl);
+    fl.l_type = (short)a_type; fl.l_whence = SEEK_SET;
+    int rc = (int)syscall(SYS_fcntl, fd, F_SETLK, &fl);
+    if (a_closes_other_fd) { int fd2 = (int)syscall(SYS_openat, AT_FDCWD, path, O_RDWR, 0); syscall(SYS_close, fd2); }
+    char ok = rc == 0 ? 'y' : 'n';
+    if (syscall(SYS_write, c2p[1], &ok, 1) != 1) _exit(1);
+    char dummy;
+    if (syscall(SYS_read, p2c[0], &dummy, 1) < 0) _exit(1);
+    _exit(0);
+  }
+  char ok = 0;
+  if (syscall(SYS_read, c2p[0], &ok, 1) != 1) ok = 'n';
+  int fd = (int)syscall(SYS_openat, AT_FDCWD, path, O_RDWR, 0);
+  struct flock fl; memset(&fl, 0, sizeof fl);
+  fl.l_type = (short)b_type; fl.l_whence = SEEK_SET;
+  int rc = (int)syscall(SYS_fcntl, fd, F_SETLK, &fl);
+  syscall(SYS_close, fd);
+  char go = 'g';
+  if (syscall(SYS_write, p2c[1], &go, 1) != 1) {}
+  int st; waitpid(pid, &st, 0);
+  syscall(SYS_close, p2c[0]); syscall(SYS_close, p2c[1]); syscall(SYS_close, c2p[0]); syscall(SYS_close, c2p[1]);
+  if (ok != 'y') return -1;
+  return rc == 0 ? 1 : 0;
+}
+static int validate_lock_model(bsx::Report &R) {
+  raw_write_file("klock.f", "x");
+  int bad = 0;
+  for (int a : {F_RDLCK, F_WRLCK})
+    for (int b : {F_RDLCK, F_WRLCK})
+      for (int closes = 0; closes < 2; closes++) {
+        int kernel = kernel_try("klock.f", a, closes == 1, b);
+        io::locks.clear();
+        if (!closes) io::set_lock(1, a);  // POSIX: closing any descriptor of the file drops the process's locks
+        int model = io::lock_free_for(2, b) ? 1 : 0;
+        io::locks.clear();
+        R.eval();
+        R.counters["lock_model_cases_checked_against_kernel"]++;
+        if (kernel != model) {
+          bad++;
+          fprintf(stderr, "lock model disagrees with the kernel: A=%d closes=%d B=%d kernel=%d model=%d\n", a, closes, b, kernel, model);
+        }
+      }
+  unlink("klock.f");
+  return bad;
+}
+
 // one execution projected onto the abstract steps of models/JobFile.tla
 static std::string abs_line(const Cfg &c, const vsx::Exec &x) {
   const vs_shared *shm = x.shm;
@@ -841,6 +896,7 @@ int main(int argc, char **argv) {
   std::string part = R.part;
 
   if (part == "sched") {
+    if (a.shard == 0 && validate_lock_model(R) != 0) { fprintf(stderr, "MACHINERY-ERROR the POSIX record-lock model of the harness disagrees with the kernel\n"); return 2; }
     // ---- all schedules up to a preemption bound
     std::vector<Cfg> cfgs;
     std::vector<std::pair<int, int>> KT = {{1, 1}, {1, 2}, {2, 1}, {2, 2}, {3, 1}};
